@@ -54,6 +54,7 @@ var verifYieldPoints = map[string]bool{
 	"inport.recv":          true,
 	"port.send":            true,
 	"port.close":           true,
+	"proc.ports_closed":    true,
 	"task.done":            true,
 	"task.begin":           true,
 }
